@@ -98,6 +98,7 @@ def obligations(w, name):
                                 sf.f(n, *extra), None,
                                 note=f"structural induction, case {cls}{nm}")
                 ob.fuel = fuel
+                ob.inline_goal = lem.get("inline_goal", 0)
                 ob.allclass = lem.get("allclass", 12)
                 obs.append(ob)
     else:
